@@ -397,6 +397,7 @@ def r084(an, rep, rule="R08.4", nan_sign_matters=False):
     W = [("nan", nan), ("-nan", nnan), ("0.0", 0.0), ("-0.0", -0.0), ("1.0", 1.0), ("-1.0", -1.0), ("1", 1), ("True", True), ("0", 0), ("False", False),
          ("inf", float("inf")), ("'a'", "a"), ("b'a'", b"a"), ("None", None), ("...", Ellipsis),
          ("0j", complex(0.0, 0.0)), ("-0j", complex(0.0, -0.0)), ("(-0.0+0j)", complex(-0.0, 0.0)), ("complex(nan,0)", complex(nan, 0.0)), ("complex(-nan,0)", complex(nnan, 0.0)),
+         ("complex(1,nan)", complex(1.0, nan)), ("complex(1,-nan)", complex(1.0, nnan)), ("complex(nan,nan)", complex(nan, nan)), ("complex(-0.0,nan)", complex(-0.0, nan)),
          ("(1,)", (1,)), ("(True,)", (True,)), ("(1.0,)", (1.0,)), ("(0.0,)", (0.0,)), ("(-0.0,)", (-0.0,)), ("(nan,)", (nan,)), ("(-nan,)", (nnan,)),
          ("frozenset({1})", frozenset({1})), ("frozenset({True})", frozenset({True})), ("frozenset({0.0})", frozenset({0.0})), ("frozenset({-0.0})", frozenset({-0.0})),
          # two NaN objects are two elements of a set (nan != nan): identifying NaNs cannot make a 2-element constant equal to a 1-element one
